@@ -337,8 +337,8 @@ pub fn run(tkind: TKind, depth: usize) {
     let feats = [F_VERSION_1, F_VERSION_1 | F_INDIRECT | F_EVENT_IDX, F_VERSION_1 | 0x7];
     let offered = feats[choose(feats.len(), "offered features")];
     let w = DWorld::new(Kind::Console, tkind, offered, Kind::Console.default_config());
-    // (One step shallower for the third set: the alphabet has 17 operations.)
-    let depth = if offered & 0x7 != 0 { depth.saturating_sub(1).max(1) } else { depth };
+    // (One step shallower for the second and third set: the alphabet has 18 operations.)
+    let depth = if offered != F_VERSION_1 { depth.saturating_sub(1).max(1) } else { depth };
     w.with_transport(V { depth });
     mmio::set_handler(None);
 }
@@ -430,6 +430,29 @@ impl TransportVisitor for VFmt {
             }
             hal::with(|h| h.compact());
             co.borrow_mut().served.clear();
+        }
+        // Strings longer than a page with a multi-byte character across every page boundary
+        // (2-, 3- and 4-byte encodings starting 1..3 bytes before offsets 4096 and 8192).
+        for (ch, chlen) in [('\u{e9}', 2usize), ('\u{20ac}', 3), ('\u{1f600}', 4)] {
+            for boundary in [4096usize, 8192] {
+                for before in 1..chlen {
+                    let mut text = String::new();
+                    text.extend(std::iter::repeat('a').take(boundary - before));
+                    text.push(ch);
+                    text.extend(std::iter::repeat('b').take(700));
+                    for via_fmt in [false, true] {
+                        tx.borrow_mut().clear();
+                        let r = crate::util::catch(std::panic::AssertUnwindSafe(|| if via_fmt { write!(&mut con, "{}", text) } else { core::fmt::Write::write_str(&mut con, &text) }));
+                        n += 1;
+                        let ok = matches!(r, Ok(Ok(()))) && tx.borrow()[..] == *text.as_bytes();
+                        if !ok && out.len() < 4 {
+                            out.push(("fmt-write".to_string(), format!("{} of a {}-byte string with a {}-byte character starting {} byte(s) before offset {} -> {:?}; the transmit queue received {} bytes{}", if via_fmt { "write!" } else { "write_str" }, text.len(), chlen, before, boundary, r.as_ref().map(|x| x.is_ok()), tx.borrow().len(), if tx.borrow()[..] == *text.as_bytes() { "" } else { ", which differ from the text" })));
+                        }
+                        hal::with(|h| h.compact());
+                        co.borrow_mut().served.clear();
+                    }
+                }
+            }
         }
         for (name, f) in cases {
             tx.borrow_mut().clear();
